@@ -150,6 +150,10 @@ impl FolderReducer {
                 vault.set_name(name);
             }
 
+            if let Some(flags) = self.vault_flags {
+                *vault.flags_mut() = flags;
+            }
+
             if let Some(meta) = self.vault_meta {
                 vault.header_mut().set_meta(Some(meta));
             }
